@@ -310,7 +310,11 @@ func (c *Ctx) rulesC15() {
 	fKill := c.field(pn, "Supervisor", "WorkerErrKill")
 	if f := c.fn(pn + ":Supervisor.ErrWorkerState"); f != nil && fKill != nil {
 		good := false
-		for _, b := range f.Blocks {
+		var kblocks []*ssa.BasicBlock
+		for _, hf := range c.hostedFns(f) {
+			kblocks = append(kblocks, hf.Blocks...)
+		}
+		for _, b := range kblocks {
 			for _, ins := range b.Instrs {
 				call, ok := ins.(*ssa.Call)
 				if !ok || !call.Call.IsInvoke() && calleeName(&call.Call) != "Add1" {
